@@ -6,6 +6,9 @@ open DaeVerif DaeVerif.C10 DaeVerif.Proto
 structure DState where
   tk : TK
   cs : CState
+  /-- real-loops mode of the harness: which goroutine's batches land on which line is a race there, so the
+  bookkeeping part of a line carries no batches and no queue length -/
+  real : Bool := false
 deriving Inhabited
 
 def ownerOfTok (s : String) : String := if s = "~" then "" else s
@@ -101,9 +104,9 @@ def pendingStr (p : List Task) : String :=
 the cache contents, the mirror flag), the right part is bookkeeping (batch shapes, queue, policies). -/
 def line (strict drift : String) : String := strict ++ " ## " ++ drift
 
-def cLine (σ : CState) (extra : String := "") : String :=
+def cLine (σ : CState) (extra : String := "") (real : Bool := false) : String :=
   line ("n=" ++ toString σ.cache.length ++ " " ++ tableFp σ.tk.K ++ " m=" ++ boolStr (mirrorOk σ.cache σ.tk.K))
-    (extra ++ callsStr σ.tk.log ++ " p=" ++ toString σ.pending.length)
+    (if real then extra ++ "calls=~ p=~" else extra ++ callsStr σ.tk.log ++ " p=" ++ toString σ.pending.length)
 
 def clearLogT (s : TK) : TK := { s with log := [] }
 def clearLogC (σ : CState) : CState := { σ with tk := clearLogT σ.tk }
@@ -114,7 +117,7 @@ def tick (σ : CState) : CState := { clearLogC σ with now := σ.now + 1 }
 
 def runC (d : DState) (op : COp) (extra : String := "") : DState × String :=
   let σ := cstep (tick d.cs) op
-  ({ d with cs := σ }, cLine σ extra)
+  ({ d with cs := σ }, cLine σ extra d.real)
 
 def parseOutcome? : String → Option Outcome
   | "ok" => some .ok
@@ -149,13 +152,19 @@ def handle (d : DState) (line' : String) : DState × String :=
   | ["tnil", which] =>
     let r := if which = "upd" then batchUpdate (clearLogT d.tk) none else batchRemove (clearLogT d.tk) none
     ({ d with tk := r.1 }, tLine r)
+  | "tnomap" :: o :: bm :: rest =>
+    match parseBits? bm, rest.mapM parseAns? with
+    | some b, some ans =>
+      let tk := (clearLogT d.tk).syncNoMap (ownerOfTok o) ⟨b, ansIps ans⟩
+      ({ d with tk := tk }, tLine (tk, if ownerOfTok o = "" then .emptyOwner else .ok))
+    | _, _ => (d, "bad-op")
   | "tnobpf" :: _ =>
     -- `PeekBpf() == nil`: the call is dropped before the tracker is touched
     (d, tLine (clearLogT d.tk, .ok))
   | ["tdump"] => (d, line (kernelStr d.tk.K) (trackerStr d.tk.t))
-  | ["cnew", en, ttl, mx] =>
+  | ["cnew", en, ttl, mx, real] =>
     match ttl.toNat?, mx.toNat? with
-    | some t, some m => ({ d with cs := CState.init ⟨en = "1", t, m⟩ }, line "ok" "")
+    | some t, some m => ({ d with cs := CState.init ⟨en = "1", t, m⟩, real := real = "1" }, line "ok" "")
     | _, _ => (d, "bad-op")
   | "put" :: key :: fqdn :: qt :: ttl :: fttl :: bm :: rest =>
     match qt.toNat?, ttl.toNat?, parseBits? bm, rest.mapM parseAns? with
@@ -164,6 +173,14 @@ def handle (d : DState) (line' : String) : DState × String :=
       else match fttl.toNat? with
         | some f => runC d (.put (ownerOfTok key) fqdn q t (some f) b ans)
         | none => (d, "bad-op")
+    | _, _, _, _ => (d, "bad-op")
+  | "putf" :: key :: fqdn :: qt :: ttl :: fttl :: bm :: rest =>
+    -- a put whose synchronous publish failed (injected failing update batch)
+    match qt.toNat?, ttl.toNat?, parseBits? bm, rest.mapM parseAns? with
+    | some q, some t, some b, some ans =>
+      let f := if fttl = "-" then none else fttl.toNat?
+      let σ := cstepF (tick d.cs) (.putFail (ownerOfTok key) fqdn q t f b ans)
+      ({ d with cs := σ }, cLine σ "" d.real)
     | _, _, _, _ => (d, "bad-op")
   | ["del", key] => runC d (.del key)
   | "fam" :: base :: order =>
